@@ -8,5 +8,6 @@ import CompmechVerif.Props.C09
 #print axioms Compmech.NR.C09.bisect_one_pass
 #print axioms Compmech.NR.C09.terminates
 #print axioms Compmech.NR.C09.final_within_tolerance_or_below_min_partial
+#print axioms Compmech.NR.C09.finished_last_factor_window
 #print axioms Compmech.NR.C09.final_not_one_counterexample
 #print axioms Compmech.NR.C09.linear_problem_finishes_partial
